@@ -432,8 +432,11 @@ def judge(case, observed, sql):
     # columns the compiler made for itself and a star lets through: row numbers of `group (take)`, and a sort key carried next to a star
     # (`SELECT *, k`: SQLite reports the second one as `k:1`)
     sortkeys = {m.strip("`").lower() for m in re.findall(r"(?m)^sort \{-?(`[^`]*`|\w+)\}", case.prql)}
+    expected_names = {n.lower() for n in case.expect}
     helpers = [o for o in observed if re.fullmatch(r"_expr_[0-9]+", o) or
-               (re.fullmatch(r".+:[0-9]+", o) and o.rsplit(":", 1)[0].lower() in sortkeys and re.search(r"\*, ", sql))]
+               (re.fullmatch(r".+:[0-9]+", o) and o.rsplit(":", 1)[0].lower() in sortkeys and re.search(r"\*, ", sql)) or
+               # a sort key that an earlier `select` renamed away, carried next to a star under its old name
+               (o.lower() in sortkeys and o.lower() not in expected_names and re.search(r"\*, ", sql))]
     stripped = [o for o in observed if o not in helpers]
     for leak in (False, True):
         if leak and not ((helpers or len(observed) > len(case.expect)) and star and ("group_take" in case.steps or sortkeys)):
